@@ -252,7 +252,9 @@ def decode_number(data_raw: int, bit_offset: int, bit_length: int, signed: bool,
         if number_int & signed_mask != 0:
             number_int -= (1 << bit_length)
 
-    if bit_length <= 3:
+    if bit_length == 1:
+        pass  # a single bit has no room for a "not available" pattern
+    elif bit_length <= 3:
         if number_int == (1 << bit_length) - 1:
             return None
     elif bit_length >= 4:
